@@ -39,6 +39,7 @@ type Case struct {
 	ErrPos      int    // which handler of the chain raises the error (0-based; >= ChainLen: none, falls through)
 	CatchAll    bool   // root ends with a middleware raising the error for everything that reaches it
 	Repeat      int
+	TopDown     bool `json:",omitempty"` // mount each sub-app into its parent before its own children are mounted into it
 }
 
 type cand struct {
@@ -121,8 +122,13 @@ func build(c Case) (*fiber.App, *run) {
 		for _, nd := range nodes {
 			sub := fiber.New(cfg(nd.Name, nd.Handler))
 			routes(sub)
-			mount(sub, nd.Children)
-			parent.Use(nd.Prefix, sub)
+			if c.TopDown {
+				parent.Use(nd.Prefix, sub)
+				mount(sub, nd.Children)
+			} else {
+				mount(sub, nd.Children)
+				parent.Use(nd.Prefix, sub)
+			}
 		}
 	}
 	routes(root)
@@ -271,6 +277,7 @@ func genCase(t *rapid.T) Case {
 	c.ChainLen = rapid.IntRange(1, 3).Draw(t, "chain")
 	c.ErrPos = rapid.IntRange(0, c.ChainLen).Draw(t, "errpos")
 	c.CatchAll = rapid.Bool().Draw(t, "catchall") && c.ErrKind != "fallthrough"
+	c.TopDown = rapid.Bool().Draw(t, "topdown")
 	c.Repeat = 8
 	if vk.Tier() == "thorough" {
 		c.Repeat = 32
